@@ -9,7 +9,7 @@ Open Scope Z_scope.
 Definition rd (t : thread) : Z :=
   match t_pc t with AXCas | AXLoad | ACellLoad | ACellCas | RCas | RLoad => 1 | _ => 0 end.
 Definition lk (t : thread) : Z :=
-  match t_pc t with LCas | LLoad | LLook1 | LLook2 | LCellLoad | LCellCas => 1 | _ => 0 end.
+  match t_pc t with LCas | LLoad | LLook1 | LLook2 | LCellLoad | LCellCas | GIvLoad | GIvCas | GRfLoad | GClose => 1 | _ => 0 end.
 Definition undep (t : thread) : Z :=
   match t_pc t with
   | AIdle | ALoad | ACas | AXCas | AXLoad | ACellLoad | ACellCas => t_amt t
@@ -73,16 +73,17 @@ Definition wf (s : shared) : Prop :=
   (forall g, s_ptr s = Some g -> (g < length (s_maps s))%nat) /\
   (forall g, s_cur s = Some g -> (g < length (s_maps s))%nat) /\
   Forall (fun f => (f < length (s_cells s))%nat) (s_maps s) /\
-  Forall (fun c => 0 <= c < W64) (s_cells s).
+  Forall (fun c => 0 <= c < W64) (s_cells s) /\
+  (forall g, s_new s = Some g -> (g < length (s_maps s))%nat).
 
 Lemma wf_file_of s g : wf s -> (g < length (s_maps s))%nat -> (file_of s g < length (s_cells s))%nat.
 Proof.
-  intros (_ & _ & Hm & _) Hg. unfold file_of. rewrite Forall_forall in Hm. apply Hm. apply nth_In. exact Hg.
+  intros (_ & _ & Hm & _ & _) Hg. unfold file_of. rewrite Forall_forall in Hm. apply Hm. apply nth_In. exact Hg.
 Qed.
 
 Lemma wf_cell_range s g : wf s -> (g < length (s_maps s))%nat -> 0 <= cell_of s g < W64.
 Proof.
-  intros W Hg. pose proof (wf_file_of _ _ W Hg) as Hf. destruct W as (_ & _ & _ & Hc).
+  intros W Hg. pose proof (wf_file_of _ _ W Hg) as Hf. destruct W as (_ & _ & _ & Hc & _).
   unfold cell_of. rewrite Forall_forall in Hc. apply Hc. apply nth_In. exact Hf.
 Qed.
 
@@ -96,14 +97,17 @@ Lemma wf_set_word s w : wf s -> wf (set_word s w). Proof. intros W; exact W. Qed
 Lemma wf_set_sat s b : wf s -> wf (set_sat s b). Proof. intros W; exact W. Qed.
 Lemma wf_touch s g : wf s -> wf (touch s g). Proof. intros W; exact W. Qed.
 Lemma wf_set_ptr_cur s : wf s -> wf (set_ptr s (s_cur s)).
-Proof. intros (A & B & C & D). split; [exact B|]. split; [exact B|]. split; assumption. Qed.
+Proof. intros (A & B & C & D & E). split; [exact B|]. split; [exact B|]. split; [exact C|]. split; assumption. Qed.
 Lemma wf_set_ptr_none s : wf s -> wf (set_ptr s None).
-Proof. intros (A & B & C & D). split; [intros g H; discriminate|]. split; [exact B|]. split; assumption. Qed.
+Proof. intros (A & B & C & D & E). split; [intros g H; discriminate|]. split; [exact B|]. split; [exact C|]. split; assumption. Qed.
+Lemma wf_set_ptr_new s : wf s -> wf (set_ptr s (s_new s)).
+Proof. intros (A & B & C & D & E). split; [exact E|]. split; [exact B|]. split; [exact C|]. split; assumption. Qed.
 Lemma wf_set_cell s g v : wf s -> 0 <= v < W64 -> wf (set_cell s g v).
 Proof.
-  intros (A & B & C & D) Hv. split; [exact A|]. split; [exact B|]. cbn [set_cell s_maps s_cells]. split.
+  intros (A & B & C & D & E) Hv. split; [exact A|]. split; [exact B|]. cbn [set_cell s_maps s_cells s_new]. split; [|split].
   - rewrite upd_length. exact C.
   - apply Forall_upd; assumption.
+  - exact E.
 Qed.
 
 Lemma persisted_set_cell s g v : wf s -> (g < length (s_maps s))%nat ->
@@ -118,32 +122,37 @@ Definition needs_ptr (t : thread) : Z :=
 Definition crashed (t : thread) : bool := match t_pc t with Crash => true | _ => false end.
 
 Definition pendI (t : thread) : Z :=
-  match t_pc t with CNop _ | IvLoad | IvCas => 1 | _ => 0 end.
+  match t_pc t with CNop _ | IvLoad | IvCas | GIvLoad | GIvCas => 1 | _ => 0 end.
 Definition pendR (t : thread) : Z :=
   match t_pc t with RfLoad | RfCas => 1 | _ => 0 end.
 Definition look (t : thread) : Z :=
-  match t_pc t with LLook1 | LLook2 => 1 | _ => 0 end.
+  match t_pc t with LLook1 | LLook2 | GIvLoad | GIvCas | GRfLoad | GClose => 1 | _ => 0 end.
 Definition xr (t : thread) : Z :=
   match t_pc t with AXCas | AXLoad => 1 | _ => 0 end.
+(* lock holders whose lookup extended the file and that have finished their
+   own invalidate: havePtr stays clear until they set it again *)
+Definition gp (t : thread) : Z :=
+  match t_pc t with GRfLoad | GClose => 1 | _ => 0 end.
 
 (* the "somebody is responsible" clauses behind nothing-unpersisted:
    h = havePtr, e = extra, LK/RD = lock holders / readers, PI = changers that
    stored a mapping and have not finished invalidating, PR = changers that
    have not finished refreshing, LO = lock holders inside file.lookup,
    XR = readers that found a nil pointer *)
-Definition S_ok (h : bool) (e : Z) (ptr cur : option nat) (LK RD PI PR LO XR : Z) : Prop :=
+Definition S_ok (h : bool) (e : Z) (ptr cur : option nat) (LK RD PI PR LO XR GP : Z) : Prop :=
   (h = true -> ptr <> cur -> LO = 0 -> 1 <= PI) /\
   (0 < XR -> ptr = None) /\
   (LK = 0 -> h = true -> ptr <> None -> e = 0) /\
-  (0 < e -> LK = 1 \/ 1 <= RD \/ (h = true /\ ptr = None) \/ 1 <= PI + PR).
+  (0 < e -> LK = 1 \/ 1 <= RD \/ (h = true /\ ptr = None) \/ 1 <= PI + PR) /\
+  (0 < GP -> h = false).
 
 Definition cnt_ok (r Rt Lt Rr Lr : Z) : Prop :=
   (r = LOCKED /\ Lt + Lr = 1 /\ Rt + Rr = 0) \/ (r = Rt + Rr /\ Lt + Lr = 0).
 
-Definition local_post (s : shared) (t : thread) (e : Z) (s' : shared) (t' : thread) (Rr Lr NPr PIr PRr LOr XRr : Z) : Prop :=
+Definition local_post (s : shared) (t : thread) (e : Z) (s' : shared) (t' : thread) (Rr Lr NPr PIr PRr LOr XRr GPr : Z) : Prop :=
   exists r' h' e', Fields (s_word s') r' h' e' /\ cnt_ok r' (rd t') (lk t') Rr Lr /\ tl_ok t' /\ wf s' /\
     (0 < needs_ptr t' + NPr -> s_ptr s' <> None) /\ crashed t' = false /\
-    S_ok h' e' (s_ptr s') (s_cur s') (lk t' + Lr) (rd t' + Rr) (pendI t' + PIr) (pendR t' + PRr) (look t' + LOr) (xr t' + XRr) /\
+    S_ok h' e' (s_ptr s') (s_cur s') (lk t' + Lr) (rd t' + Rr) (pendI t' + PIr) (pendR t' + PRr) (look t' + LOr) (xr t' + XRr) (gp t' + GPr) /\
     persisted s' + e' + carry t' + undep t' <= persisted s + e + carry t + undep t /\
     (s_sat s' = false -> s_sat s = false /\
        persisted s' + e' + carry t' + undep t' = persisted s + e + carry t + undep t).
@@ -167,18 +176,18 @@ Ltac psimp := rewrite ?persisted_set_sat, ?persisted_set_word, ?persisted_touch,
   ?sat_touch, ?sat_set_cell, ?sat_set_ptr, ?sat_set_word, ?sat_set_sat in *.
 
 Ltac ms Hpc :=
-  unfold rd, lk, carry, undep, needs_ptr, crashed, pendI, pendR, look, xr, tl_ok, cnt_ok, S_ok in *;
-  cbn [t_pc t_amt t_st t_kind t_old t_prev t_tgt t_after with_pc with_st with_old with_amt to_close after_release goto_nops] in *;
+  unfold rd, lk, carry, undep, needs_ptr, crashed, pendI, pendR, look, xr, gp, tl_ok, cnt_ok, S_ok in *;
+  cbn [t_pc t_amt t_st t_kind t_old t_prev t_tgt t_after with_pc with_st with_st2 with_old with_amt to_close after_release goto_nops] in *;
   try rewrite Hpc in *; cbn iota beta in *.
 
 (* a step that leaves the shared state alone *)
-Lemma post_same s t e t' r h Rr Lr NPr PIr PRr LOr XRr :
+Lemma post_same s t e t' r h Rr Lr NPr PIr PRr LOr XRr GPr :
   Fields (s_word s) r h e -> wf s ->
   cnt_ok r (rd t') (lk t') Rr Lr -> tl_ok t' ->
   (0 < needs_ptr t' + NPr -> s_ptr s <> None) -> crashed t' = false ->
-  S_ok h e (s_ptr s) (s_cur s) (lk t' + Lr) (rd t' + Rr) (pendI t' + PIr) (pendR t' + PRr) (look t' + LOr) (xr t' + XRr) ->
+  S_ok h e (s_ptr s) (s_cur s) (lk t' + Lr) (rd t' + Rr) (pendI t' + PIr) (pendR t' + PRr) (look t' + LOr) (xr t' + XRr) (gp t' + GPr) ->
   carry t' + undep t' = carry t + undep t ->
-  local_post s t e s t' Rr Lr NPr PIr PRr LOr XRr.
+  local_post s t e s t' Rr Lr NPr PIr PRr LOr XRr GPr.
 Proof.
   intros F W C T N K SO E. exists r, h, e.
   split; [exact F|]. split; [exact C|]. split; [exact T|]. split; [exact W|].
@@ -223,15 +232,15 @@ Ltac same_leaf Hpc F W T N r h :=
   | ms Hpc; lia ].
 
 (* the leaf shared by every "add n to extra" CAS *)
-Lemma extra_leaf s t e r h (n : Z) s' t' Rr Lr NPr PIr PRr LOr XRr w' r' :
+Lemma extra_leaf s t e r h (n : Z) s' t' Rr Lr NPr PIr PRr LOr XRr GPr w' r' :
   Fields (s_word s) r h e -> 0 <= n -> wf s ->
   Fields w' r' h (extra_after e n) ->
   s' = set_sat (set_word s w') (add_extra_saturates (s_word s) n) ->
   cnt_ok r' (rd t') (lk t') Rr Lr -> tl_ok t' ->
   (0 < needs_ptr t' + NPr -> s_ptr s <> None) -> crashed t' = false ->
-  S_ok h (extra_after e n) (s_ptr s) (s_cur s) (lk t' + Lr) (rd t' + Rr) (pendI t' + PIr) (pendR t' + PRr) (look t' + LOr) (xr t' + XRr) ->
+  S_ok h (extra_after e n) (s_ptr s) (s_cur s) (lk t' + Lr) (rd t' + Rr) (pendI t' + PIr) (pendR t' + PRr) (look t' + LOr) (xr t' + XRr) (gp t' + GPr) ->
   carry t' + undep t' + n = carry t + undep t ->
-  local_post s t e s' t' Rr Lr NPr PIr PRr LOr XRr.
+  local_post s t e s' t' Rr Lr NPr PIr PRr LOr XRr GPr.
 Proof.
   intros F Hn W F' -> C T N K SO E.
   destruct (f_add_extra _ _ _ _ n F Hn) as [_ Es].
@@ -248,16 +257,16 @@ Ltac npg := cbn [set_word set_sat set_ptr set_cell touch s_ptr] in *;
   first [ assumption | (intros; lia) | (intros _; congruence) ].
 Ltac fin Hpc := ms Hpc; first [ assumption | lia | (split; [assumption | intros; discriminate]) | (intros; lia) | reflexivity ].
 
-Lemma step_local np s t s' t' r h e Rr Lr NPr PIr PRr LOr XRr n :
+Lemma step_local np s t s' t' r h e Rr Lr NPr PIr PRr LOr XRr GPr n :
   step_thread np s t = (s', t') ->
   Fields (s_word s) r h e -> 0 <= Rr -> 0 <= Lr -> Rr + Lr + 1 <= n -> n < LOCKED ->
-  0 <= NPr <= Rr + Lr -> 0 <= PIr -> 0 <= PRr -> 0 <= LOr <= Lr -> 0 <= XRr <= Rr ->
+  0 <= NPr <= Rr + Lr -> 0 <= PIr -> 0 <= PRr -> 0 <= LOr <= Lr -> 0 <= XRr <= Rr -> 0 <= GPr <= Lr ->
   cnt_ok r (rd t) (lk t) Rr Lr -> tl_ok t -> wf s ->
   (0 < needs_ptr t + NPr -> s_ptr s <> None) -> crashed t = false ->
-  S_ok h e (s_ptr s) (s_cur s) (lk t + Lr) (rd t + Rr) (pendI t + PIr) (pendR t + PRr) (look t + LOr) (xr t + XRr) ->
-  local_post s t e s' t' Rr Lr NPr PIr PRr LOr XRr.
+  S_ok h e (s_ptr s) (s_cur s) (lk t + Lr) (rd t + Rr) (pendI t + PIr) (pendR t + PRr) (look t + LOr) (xr t + XRr) (gp t + GPr) ->
+  local_post s t e s' t' Rr Lr NPr PIr PRr LOr XRr GPr.
 Proof.
-  intros H F HRr HLr Hn HnL HNP HPI HPR HLO HXR C T W N K SO.
+  intros H F HRr HLr Hn HnL HNP HPI HPR HLO HXR HGP C T W N K SO.
   pose proof (extra_after_le e (t_amt t)) as Hx0.
   pose proof (fields_readers _ _ _ _ F) as Er.
   pose proof (fields_have _ _ _ _ F) as Eh.
@@ -379,11 +388,69 @@ Proof.
   - (* LLook2 *)
     assert (Hlk : r = LOCKED /\ Lr = 0 /\ Rr = 0 /\ NPr = 0) by (ms Hpc; lia).
     destruct Hlk as (-> & -> & -> & ->).
-    injection H as <- <-.
-    exists LOCKED, h, e. psimp. split; [exact F|]. ms Hpc. psimp.
-    split; [lia|]. split; [split; [assumption|intros; discriminate]|].
-    split; [apply wf_set_ptr_cur; exact W|].
+    assert (Plain : (s', t') = (set_ptr s (s_cur s), with_pc t LCas) ->
+                    local_post s t e s' t' 0 0 0 PIr PRr LOr XRr GPr).
+    { intros X. injection X as -> ->.
+      exists LOCKED, h, e. psimp. split; [exact F|]. ms Hpc. psimp.
+      split; [lia|]. split; [split; [assumption|intros; discriminate]|].
+      split; [apply wf_set_ptr_cur; exact W|].
+      split; [npg|]. split; [reflexivity|]. split; [sok Hpc|]. split; [lia|]. intros Hs. split; [exact Hs|lia]. }
+    destruct (s_cur s) as [g0|] eqn:Ec; [|apply Plain; rewrite <- H; reflexivity].
+    destruct (t_prev t) eqn:Epv; [apply Plain; rewrite <- H; reflexivity|].
+    destruct (s_full s) eqn:Efu; [|apply Plain; rewrite <- H; reflexivity].
+    (* the lookup extends the file *)
+    injection H as <- <-. pose proof W as (Wp & Wc & Wm & Wl & Wn).
+    exists LOCKED, h, e. split; [exact F|]. ms Hpc.
+    split; [lia|]. split; [split; [assumption|intros; discriminate]|]. split.
+    { split; [|split; [|split; [|split]]]; cbn [s_ptr s_cur s_maps s_cells s_new].
+      - intros g Hg. rewrite app_length. specialize (Wp g Hg). cbn. lia.
+      - intros g Hg. injection Hg as <-. rewrite app_length. cbn. lia.
+      - apply Forall_app. split; [exact Wm|]. constructor; [|constructor].
+        apply wf_file_of; [exact W | apply Wc; exact Ec].
+      - exact Wl.
+      - intros g Hg. injection Hg as <-. rewrite app_length. cbn. lia. }
+    split; [cbn [s_ptr]; exact N|]. split; [reflexivity|]. split; [cbn [s_ptr s_cur]; sok Hpc|].
+    unfold persisted. cbn [s_cells s_sat].
+    split; [lia|]. intros Hs. split; [exact Hs|lia].
+  - (* GIvLoad *)
+    destruct (w_have (s_word s)) eqn:Ehh; injection H as <- <-.
+    + same_leaf Hpc F W T N r h.
+    + subst h. same_leaf Hpc F W T N r false.
+  - (* GIvCas *)
+    destruct (Z.eqb_spec (s_word s) (t_old t)) as [Ew|Ne]; injection H as <- <-.
+    2:{ same_leaf Hpc F W T N r h. }
+    rewrite <- Ew.
+    exists r, false, e. psimp. split; [apply (f_clear_have _ _ _ _ F)|]. ms Hpc. psimp.
+    split; [lia|]. split; [split; [assumption|intros; discriminate]|]. split; [exact W|].
     split; [npg|]. split; [reflexivity|]. split; [sok Hpc|]. split; [lia|]. intros Hs. split; [exact Hs|lia].
+  - (* GRfLoad *)
+    assert (Hlk : r = LOCKED /\ Lr = 0 /\ Rr = 0 /\ NPr = 0) by (ms Hpc; lia).
+    destruct Hlk as (-> & -> & -> & ->).
+    destruct (w_have (s_word s) || (0 <? w_readers (s_word s)) || (w_extra (s_word s) =? 0)) eqn:Cd;
+      injection H as <- <-.
+    + same_leaf Hpc F W T N LOCKED h.
+    + exfalso. rewrite Er in Cd. apply orb_false_iff in Cd as [Cd _]. apply orb_false_iff in Cd as [_ Cd].
+      apply Z.ltb_ge in Cd. rewrite LOCKED_v in Cd. lia.
+  - (* GClose *)
+    assert (Hlk : r = LOCKED /\ Lr = 0 /\ Rr = 0 /\ NPr = 0) by (ms Hpc; lia).
+    destruct Hlk as (-> & -> & -> & ->).
+    assert (Hh : h = false).
+    { destruct SO as (_ & _ & _ & _ & S5). apply S5. ms Hpc. lia. }
+    clear Eh. subst h. pose proof W as (Wp & Wc & Wm & Wl & Wn).
+    destruct (t_prev t) as [g|]; injection H as <- <-.
+    + exists LOCKED, false, e. split; [exact F|]. ms Hpc.
+      split; [lia|]. split; [split; [assumption|intros; discriminate]|].
+      split; [split; [exact Wn|]; split; [exact Wc|]; split; [exact Wm|]; split; [exact Wl|exact Wn]|].
+      split; [intros; lia|]. split; [reflexivity|].
+      split; [cbn [s_ptr s_cur]; repeat split; intros; try discriminate; try lia; auto|].
+      change (persisted (mkS (s_word s) (s_new s) (s_cur s) (s_maps s) (g :: s_closed s) (s_cells s) (s_faults s) (s_sat s) (s_full s) (s_new s))) with (persisted s).
+      cbn [s_sat]. split; [lia|]. intros Hs. split; [exact Hs|lia].
+    + exists LOCKED, false, e. psimp. split; [exact F|]. ms Hpc. psimp.
+      split; [lia|]. split; [split; [assumption|intros; discriminate]|].
+      split; [apply wf_set_ptr_new; exact W|].
+      split; [intros; lia|]. split; [reflexivity|].
+      split; [cbn [set_ptr s_ptr s_cur]; repeat split; intros; try discriminate; try lia; auto|].
+      split; [lia|]. intros Hs. split; [exact Hs|lia].
   - (* LCellLoad *)
     destruct (s_ptr s) as [g|] eqn:Ep; [|exfalso; ms Hpc; apply N; [lia|reflexivity]].
     injection H as <- <-.
@@ -418,48 +485,50 @@ Proof.
               undep (goto_nops t0 k IvLoad) = 0 /\ needs_ptr (goto_nops t0 k IvLoad) = 0 /\
               crashed (goto_nops t0 k IvLoad) = false /\ tl_ok (goto_nops t0 k IvLoad) /\
               pendI (goto_nops t0 k IvLoad) = 1 /\ pendR (goto_nops t0 k IvLoad) = 0 /\
-              look (goto_nops t0 k IvLoad) = 0 /\ xr (goto_nops t0 k IvLoad) = 0).
+              look (goto_nops t0 k IvLoad) = 0 /\ xr (goto_nops t0 k IvLoad) = 0 /\ gp (goto_nops t0 k IvLoad) = 0).
     { intros k t0. destruct k; cbn; repeat split; try assumption; intros; discriminate. }
     assert (Hme : rd t = 0 /\ lk t = 0 /\ carry t = 0 /\ undep t = 0 /\ needs_ptr t = 0) by (ms Hpc; lia).
     destruct Hme as (M1 & M2 & M3 & M4 & M5). rewrite M1, M2 in C. rewrite M5 in N.
-    pose proof W as (Wp & Wc & Wm & Wl).
+    pose proof W as (Wp & Wc & Wm & Wl & Wn).
     destruct (t_tgt t) eqn:Etg.
     + (* NewFile *)
       injection H as <- <-.
-      destruct (Hgo (n_after_store_rotate np)) as (G1 & G2 & G3 & G4 & G5 & G6 & G7 & G8 & G9 & G10 & G11).
-      exists r, h, e. split; [exact F|]. rewrite G1, G2, G3, G4, G5, G8, G9, G10, G11, M3, M4.
+      destruct (Hgo (n_after_store_rotate np)) as (G1 & G2 & G3 & G4 & G5 & G6 & G7 & G8 & G9 & G10 & G11 & G12).
+      exists r, h, e. split; [exact F|]. rewrite G1, G2, G3, G4, G5, G8, G9, G10, G11, G12, M3, M4.
       split; [exact C|]. split; [exact G7|]. split.
-      { split; [|split; [|split]]; cbn [s_ptr s_cur s_maps s_cells].
+      { split; [|split; [|split; [|split]]]; cbn [s_ptr s_cur s_maps s_cells s_new].
         - intros g Hg. rewrite app_length. specialize (Wp g Hg). cbn. lia.
         - intros g Hg. injection Hg as <-. rewrite app_length. cbn. lia.
         - apply Forall_app. split.
           + eapply Forall_impl; [|exact Wm]. intros a Ha. cbn beta in *. rewrite app_length. cbn [length]. lia.
           + constructor; [rewrite app_length; cbn; lia | constructor].
-        - apply Forall_app. split; [exact Wl|]. constructor; [rewrite W64_v; lia | constructor]. }
+        - apply Forall_app. split; [exact Wl|]. constructor; [rewrite W64_v; lia | constructor].
+        - intros g Hg. rewrite app_length. specialize (Wn g Hg). cbn. lia. }
       split; [exact N|]. split; [exact G6|]. split; [sok Hpc|].
       unfold persisted. cbn [s_cells s_sat]. rewrite persisted_app.
       split; [lia|]. intros Hs. split; [exact Hs|lia].
     + (* SameFile *)
       destruct (s_cur s) as [g0|] eqn:Ec; injection H as <- <-.
-      * destruct (Hgo (n_after_store_extend np)) as (G1 & G2 & G3 & G4 & G5 & G6 & G7 & G8 & G9 & G10 & G11).
-        exists r, h, e. split; [exact F|]. rewrite G1, G2, G3, G4, G5, G8, G9, G10, G11, M3, M4.
+      * destruct (Hgo (n_after_store_extend np)) as (G1 & G2 & G3 & G4 & G5 & G6 & G7 & G8 & G9 & G10 & G11 & G12).
+        exists r, h, e. split; [exact F|]. rewrite G1, G2, G3, G4, G5, G8, G9, G10, G11, G12, M3, M4.
         split; [exact C|]. split; [exact G7|]. split.
-        { split; [|split; [|split]]; cbn [s_ptr s_cur s_maps s_cells].
+        { split; [|split; [|split; [|split]]]; cbn [s_ptr s_cur s_maps s_cells s_new].
           - intros g Hg. rewrite app_length. specialize (Wp g Hg). cbn. lia.
           - intros g Hg. injection Hg as <-. rewrite app_length. cbn. lia.
           - apply Forall_app. split; [exact Wm|]. constructor; [|constructor].
             apply wf_file_of; [exact W | apply Wc; reflexivity].
-          - exact Wl. }
+          - exact Wl.
+          - intros g Hg. rewrite app_length. specialize (Wn g Hg). cbn. lia. }
         split; [exact N|]. split; [exact G6|]. split; [sok Hpc|].
         unfold persisted. cbn [s_cells s_sat].
         split; [lia|]. intros Hs. split; [exact Hs|lia].
       * same_leaf Hpc F W T N r h.
     + (* NoFile *)
       injection H as <- <-.
-      destruct (Hgo (n_after_store_rotate np)) as (G1 & G2 & G3 & G4 & G5 & G6 & G7 & G8 & G9 & G10 & G11).
-      exists r, h, e. split; [exact F|]. rewrite G1, G2, G3, G4, G5, G8, G9, G10, G11, M3, M4.
+      destruct (Hgo (n_after_store_rotate np)) as (G1 & G2 & G3 & G4 & G5 & G6 & G7 & G8 & G9 & G10 & G11 & G12).
+      exists r, h, e. split; [exact F|]. rewrite G1, G2, G3, G4, G5, G8, G9, G10, G11, G12, M3, M4.
       split; [exact C|]. split; [exact G7|]. split.
-      { split; [|split; [|split]]; cbn [s_ptr s_cur s_maps s_cells]; try assumption. intros g Hg. discriminate. }
+      { split; [|split; [|split; [|split]]]; cbn [s_ptr s_cur s_maps s_cells s_new]; try assumption. intros g Hg. discriminate. }
       split; [exact N|]. split; [exact G6|]. split; [sok Hpc|].
       unfold persisted. cbn [s_cells s_sat].
       split; [lia|]. intros Hs. split; [exact Hs|lia].
@@ -497,7 +566,7 @@ Proof.
     + exists r, h, e. split; [exact F|]. ms Hpc.
       split; [lia|]. split; [split; [assumption|intros; discriminate]|]. split; [exact W|].
       split; [exact N|]. split; [reflexivity|]. split; [sok Hpc|].
-      change (persisted (mkS (s_word s) (s_ptr s) (s_cur s) (s_maps s) (g :: s_closed s) (s_cells s) (s_faults s) (s_sat s))) with (persisted s).
+      change (persisted (mkS (s_word s) (s_ptr s) (s_cur s) (s_maps s) (g :: s_closed s) (s_cells s) (s_faults s) (s_sat s) (s_full s) (s_new s))) with (persisted s).
       cbn [s_sat]. split; [lia|]. intros Hs. split; [exact Hs|lia].
     + same_leaf Hpc F W T N r h.
   - (* Crash *) ms Hpc. discriminate.
@@ -513,7 +582,7 @@ Definition Inv (TOTAL : Z) (st : state) : Prop :=
     Forall tl_ok ts /\ wf s /\
     (0 < sumf needs_ptr ts -> s_ptr s <> None) /\
     Forall (fun t => crashed t = false) ts /\
-    S_ok h e (s_ptr s) (s_cur s) (sumf lk ts) (sumf rd ts) (sumf pendI ts) (sumf pendR ts) (sumf look ts) (sumf xr ts) /\
+    S_ok h e (s_ptr s) (s_cur s) (sumf lk ts) (sumf rd ts) (sumf pendI ts) (sumf pendR ts) (sumf look ts) (sumf xr ts) (sumf gp ts) /\
     Z.of_nat (length ts) < LOCKED /\
     persisted s + e + sumf carry ts + sumf undep ts <= TOTAL /\
     (s_sat s = false -> persisted s + e + sumf carry ts + sumf undep ts = TOTAL).
@@ -524,13 +593,14 @@ Lemma sum_others_bound l i t : nth_error l i = Some t ->
   0 <= sumf needs_ptr l - needs_ptr t <= (sumf rd l - rd t) + (sumf lk l - lk t) /\
   0 <= sumf pendI l - pendI t /\ 0 <= sumf pendR l - pendR t /\
   0 <= sumf look l - look t <= sumf lk l - lk t /\
-  0 <= sumf xr l - xr t <= sumf rd l - rd t.
+  0 <= sumf xr l - xr t <= sumf rd l - rd t /\
+  0 <= sumf gp l - gp t <= sumf lk l - lk t.
 Proof.
   assert (P : forall x, 0 <= needs_ptr x <= rd x + lk x /\ 0 <= pendI x /\ 0 <= pendR x /\
-                        0 <= look x <= lk x /\ 0 <= xr x <= rd x).
-  { intros x. unfold needs_ptr, rd, lk, pendI, pendR, look, xr. destruct (t_pc x); lia. }
+                        0 <= look x <= lk x /\ 0 <= xr x <= rd x /\ 0 <= gp x <= lk x).
+  { intros x. unfold needs_ptr, rd, lk, pendI, pendR, look, xr, gp. destruct (t_pc x); lia. }
   assert (D : forall l, 0 <= sumf needs_ptr l <= sumf rd l + sumf lk l /\ 0 <= sumf pendI l /\ 0 <= sumf pendR l /\
-                        0 <= sumf look l <= sumf lk l /\ 0 <= sumf xr l <= sumf rd l).
+                        0 <= sumf look l <= sumf lk l /\ 0 <= sumf xr l <= sumf rd l /\ 0 <= sumf gp l <= sumf lk l).
   { clear -P. induction l as [|y l IH]; cbn [sumf]; [lia|]. pose proof (P y). lia. }
   revert i; induction l as [|x l IH]; intros [|i] H; cbn [nth_error] in H; try discriminate.
   - injection H as ->. cbn [sumf length]. pose proof (sum_rd_lk_le l) as (A & B & C).
@@ -547,7 +617,8 @@ Proof.
   destruct (nth_error ts i) as [t|] eqn:Hn; [|exact I].
   destruct (step_thread np s t) as [s' t'] eqn:Hs.
   destruct I as (r & h & e & F & C & TL & W & NP & CR & SO & LEN & LE & EQ).
-  pose proof (sum_others_bound _ _ _ Hn) as (B1 & B2 & B3 & B4 & B5 & B6 & B7 & B8).
+  pose proof (sum_others_bound _ _ _ Hn) as (B1 & B2 & B3 & B4 & B5 & B6 & B7 & B8 & B9).
+  pose proof (sumf_upd gp _ _ _ t' Hn) as Ugp.
   pose proof (sumf_upd pendI _ _ _ t' Hn) as Upi.
   pose proof (sumf_upd pendR _ _ _ t' Hn) as Upr.
   pose proof (sumf_upd look _ _ _ t' Hn) as Ulo.
@@ -559,7 +630,7 @@ Proof.
   pose proof (sumf_upd needs_ptr _ _ _ t' Hn) as Unp.
   assert (L := step_local np s t s' t' r h e (sumf rd ts - rd t) (sumf lk ts - lk t)
                  (sumf needs_ptr ts - needs_ptr t) (sumf pendI ts - pendI t) (sumf pendR ts - pendR t)
-                 (sumf look ts - look t) (sumf xr ts - xr t) (Z.of_nat (length ts)) Hs F B1 B2 B3 LEN B4 B5 B6 B7 B8).
+                 (sumf look ts - look t) (sumf xr ts - xr t) (sumf gp ts - gp t) (Z.of_nat (length ts)) Hs F B1 B2 B3 LEN B4 B5 B6 B7 B8 B9).
   assert (C' : cnt_ok r (rd t) (lk t) (sumf rd ts - rd t) (sumf lk ts - lk t)).
   { unfold cnt_ok in *. lia. }
   specialize (L C' (nth_error_Forall _ _ _ _ TL Hn) W).
@@ -568,17 +639,18 @@ Proof.
   specialize (L NP' (nth_error_Forall _ _ _ _ CR Hn)).
   assert (SO' : S_ok h e (s_ptr s) (s_cur s) (lk t + (sumf lk ts - lk t)) (rd t + (sumf rd ts - rd t))
                   (pendI t + (sumf pendI ts - pendI t)) (pendR t + (sumf pendR ts - pendR t))
-                  (look t + (sumf look ts - look t)) (xr t + (sumf xr ts - xr t))).
+                  (look t + (sumf look ts - look t)) (xr t + (sumf xr ts - xr t)) (gp t + (sumf gp ts - gp t))).
   { replace (lk t + (sumf lk ts - lk t)) with (sumf lk ts) by lia.
     replace (rd t + (sumf rd ts - rd t)) with (sumf rd ts) by lia.
     replace (pendI t + (sumf pendI ts - pendI t)) with (sumf pendI ts) by lia.
     replace (pendR t + (sumf pendR ts - pendR t)) with (sumf pendR ts) by lia.
     replace (look t + (sumf look ts - look t)) with (sumf look ts) by lia.
-    replace (xr t + (sumf xr ts - xr t)) with (sumf xr ts) by lia. exact SO. }
+    replace (xr t + (sumf xr ts - xr t)) with (sumf xr ts) by lia.
+    replace (gp t + (sumf gp ts - gp t)) with (sumf gp ts) by lia. exact SO. }
   specialize (L SO').
   destruct L as (r' & h' & e' & F' & Cn & T' & W' & N' & K' & S' & LE' & EQ').
   exists r', h', e'. split; [exact F'|].
-  rewrite Urd, Ulk, Uca, Uun, Unp, Upi, Upr, Ulo, Uxr.
+  rewrite Urd, Ulk, Uca, Uun, Unp, Upi, Upr, Ulo, Uxr, Ugp.
   split; [unfold cnt_ok in *; lia|].
   split; [apply Forall_upd; assumption|]. split; [exact W'|].
   split; [intros Hp; apply N'; lia|].
@@ -589,7 +661,8 @@ Proof.
     replace (sumf pendI ts - pendI t + pendI t') with (pendI t' + (sumf pendI ts - pendI t)) by lia.
     replace (sumf pendR ts - pendR t + pendR t') with (pendR t' + (sumf pendR ts - pendR t)) by lia.
     replace (sumf look ts - look t + look t') with (look t' + (sumf look ts - look t)) by lia.
-    replace (sumf xr ts - xr t + xr t') with (xr t' + (sumf xr ts - xr t)) by lia. exact S'. }
+    replace (sumf xr ts - xr t + xr t') with (xr t' + (sumf xr ts - xr t)) by lia.
+    replace (sumf gp ts - gp t + gp t') with (gp t' + (sumf gp ts - gp t)) by lia. exact S'. }
   rewrite upd_length. split; [exact LEN|].
   split; [lia|]. intros Hsat. destruct (EQ' Hsat) as [Hs0 E0]. specialize (EQ Hs0). lia.
 Qed.
@@ -606,9 +679,9 @@ Definition fresh_thread (t : thread) : Prop :=
 
 Lemma fresh_measures t : fresh_thread t ->
   rd t = 0 /\ lk t = 0 /\ carry t = 0 /\ needs_ptr t = 0 /\ crashed t = false /\ tl_ok t /\
-  0 <= undep t /\ undep t = unbegun t /\ pendI t = 0 /\ pendR t = 0 /\ look t = 0 /\ xr t = 0.
+  0 <= undep t /\ undep t = unbegun t /\ pendI t = 0 /\ pendR t = 0 /\ look t = 0 /\ xr t = 0 /\ gp t = 0.
 Proof.
-  unfold fresh_thread, rd, lk, carry, needs_ptr, crashed, tl_ok, undep, unbegun, pendI, pendR, look, xr.
+  unfold fresh_thread, rd, lk, carry, needs_ptr, crashed, tl_ok, undep, unbegun, pendI, pendR, look, xr, gp.
   intros [[-> H]|[-> H]]; repeat split; try lia; try (intros; discriminate).
 Qed.
 
@@ -628,20 +701,20 @@ Proof.
   pose proof (fields_of _ Hw) as F. rewrite R0 in F.
   assert (M : sumf rd ts = 0 /\ sumf lk ts = 0 /\ sumf carry ts = 0 /\ sumf needs_ptr ts = 0 /\
               Forall tl_ok ts /\ Forall (fun t => crashed t = false) ts /\ sumf undep ts = sumf unbegun ts /\
-              sumf pendI ts = 0 /\ sumf pendR ts = 0 /\ sumf look ts = 0 /\ sumf xr ts = 0).
+              sumf pendI ts = 0 /\ sumf pendR ts = 0 /\ sumf look ts = 0 /\ sumf xr ts = 0 /\ sumf gp ts = 0).
   { clear -FR. induction ts as [|t ts IH]; cbn [sumf]; [repeat split; constructor|].
-    inversion FR as [|? ? Ft FR']; subst. destruct (IH FR') as (A & B & C & D & E & G & H & I1 & I2 & I3 & I4).
-    destruct (fresh_measures _ Ft) as (a & b & c & d & e & g & _ & h & i1 & i2 & i3 & i4).
+    inversion FR as [|? ? Ft FR']; subst. destruct (IH FR') as (A & B & C & D & E & G & H & I1 & I2 & I3 & I4 & I5).
+    destruct (fresh_measures _ Ft) as (a & b & c & d & e & g & _ & h & i1 & i2 & i3 & i4 & i5).
     repeat split; try lia; constructor; assumption. }
-  destruct M as (M1 & M2 & M3 & M4 & M5 & M6 & M7 & M8 & M9 & M10 & M11).
+  destruct M as (M1 & M2 & M3 & M4 & M5 & M6 & M7 & M8 & M9 & M10 & M11 & M12).
   exists 0, (w_have (s_word s)), (w_extra (s_word s)).
-  split; [exact F|]. rewrite M1, M2, M3, M4, M7, M8, M9, M10, M11.
+  split; [exact F|]. rewrite M1, M2, M3, M4, M7, M8, M9, M10, M11, M12.
   split; [unfold cnt_ok; right; lia|]. split; [exact M5|]. split; [exact W|].
   split; [intros; lia|]. split; [exact M6|].
   split.
   { unfold S_ok. split; [intros Hh Hne _; exfalso; apply Hne; apply IC1; exact Hh|].
     split; [intros; lia|]. split; [intros _ Hh Hp; apply IC2; assumption|].
-    intros He. right. right. left. apply IC3. exact He. }
+    split; [intros He; right; right; left; apply IC3; exact He|]. intros; lia. }
   split; [exact LEN|].
   split; [lia|]. intros _. lia.
 Qed.
